@@ -111,6 +111,7 @@ def swarm_knobs(rng):
         "aio_p": rng.choice([0, 0, 0.1, 0.25]),
     }
     # drawn last so that the program pool (generated from the knobs above) stays the same
+    kn["async_generators"] = kn["coroutines"] and rng.random() < 0.5
     kn["mutate_p"] = rng.choice([0, 0, 0.12, 0.3])
     kn["shared_p"] = rng.choice([0, 0, 0.15, 0.4]) if kn["mutate_p"] else 0
     return kn
@@ -242,8 +243,8 @@ def run_world(plan, lp, sample_rate=None, rng_seam=None, session=None):
 
     import gc
 
+    gc.collect()   # garbage of earlier runs is finalised (its bodies may journal) before the journal is reset
     rt.reset()
-    gc.collect()
     D.get_driver()  # compiled outside the session: no harness frame may depend on process history
     mat = D.Mat(lp)
     top = mat.script(plan["script"])
@@ -263,11 +264,11 @@ def run_world(plan, lp, sample_rate=None, rng_seam=None, session=None):
                 obj = h[0]
                 # the handle's own frame and every frame suspended below it (await chain)
                 while obj is not None and h[2]:
-                    fr = getattr(obj, "gi_frame", None) or getattr(obj, "cr_frame", None)
+                    fr = getattr(obj, "gi_frame", None) or getattr(obj, "cr_frame", None) or getattr(obj, "ag_frame", None)
                     if fr is None:
                         break
                     live[id(fr)] = hidx
-                    obj = getattr(obj, "cr_await", None) or getattr(obj, "gi_yieldfrom", None)
+                    obj = getattr(obj, "cr_await", None) or getattr(obj, "gi_yieldfrom", None) or getattr(obj, "ag_await", None)
             residue = []
             import types as _types
 
@@ -293,7 +294,7 @@ def run_world(plan, lp, sample_rate=None, rng_seam=None, session=None):
 
 def residue_violations(prefix, lp, residue, calls, comps):
     V = []
-    n_f3 = sum(1 for c in comps if c.at_yield and c.end == "X" and lp.funcs[c.fid]["body"] == "gen")
+    n_f3 = sum(1 for c in comps if c.at_yield and c.end == "X" and lp.funcs[c.fid]["body"] in ("gen", "agen"))
     for fid, is_live in residue or []:
         if fid is None or is_live:
             continue
@@ -305,7 +306,7 @@ def residue_violations(prefix, lp, residue, calls, comps):
             continue
         f = lp.funcs[fid]
         cause = None
-        if f["body"] == "gen" and any(c.fid == fid and c.at_yield and c.end == "X" for c in comps):
+        if f["body"] in ("gen", "agen") and any(c.fid == fid and c.at_yield and c.end == "X" for c in comps):
             cause = "generator_exit_at_yield"
         V.append({"clause": prefix + ".no-residue", "cause": cause,
                   "site": {"fid": fid, "kind": f["kind"], "body": f["body"]},
@@ -365,6 +366,8 @@ def execute(plan):
         probes["generator still suspended at session end"] = 1
     if any(not TT.definite(lp, lp.funcs[c.fid]) for c in comps):
         probes["call of unknown resolvability"] = 1
+    if any(lp.funcs[c.fid]["body"] == "agen" and (c.yields or c.awaits) for c in comps):
+        probes["async generator yielded / awaited and completed"] = 1
     if any(rec[0] == "MU" for rec in J):
         probes["argument container mutated in place after the call started"] = 1
         mutated = {id(rec[2]) for rec in J if rec[0] == "MU"}
